@@ -9,7 +9,8 @@ CONSTANTS
   FixPool = TRUE
   RetKeep = TRUE
   ExecFull = TRUE
+  FixIsSet = TRUE
   AnyFail = FALSE
 INVARIANTS TypeOK StartsClean EmitVec
-PROPERTIES ConstructRestores TryRestoresState AppendOnly
+PROPERTIES ConstructRestores TryRestoresState IsSetRestoresState AppendOnly
 CHECK_DEADLOCK FALSE
